@@ -11,12 +11,14 @@
     the crash: whatever program a process was running, wherever it died, every
     later history of the public API on a plain write cache keeps the key-value
     semantics of C11 from whatever the directory shows at that moment, and keeps
-    every file's bytes ([C02_histories_after_any_crash]).  That the later
-    operations SUCCEED, and reclamation of stale debris: crash-point enumeration
-    (vlib/c02.py). *)
+    every file's bytes ([C02_histories_after_any_crash]); (5) debris older than
+    the limit is reclaimed: in the kernel model a fault-free temp-directory sweep
+    leaves every entry it measured as a stale non-directory unbound
+    ([C02_stale_debris_is_reclaimed]; younger files are never unlinked: C17).
+    That the later operations SUCCEED: crash-point enumeration (vlib/c02.py). *)
 From Coq Require Import List NArith ZArith String Bool.
 Import ListNotations.
-From Kismet Require Import Pure.Hash FS.Fs FS.Prog Ops.Ops Ops.Client Spec.ClassMon Spec.Calm Conc.Pool Conc.Effect Conc.Immut Proofs.PoolLift Proofs.DebrisInTemp Seq.Plain Proofs.KvSeq Proofs.KvTemp Proofs.KvHist.
+From Kismet Require Import Pure.Hash FS.Fs FS.Prog Ops.Ops Ops.Client Spec.ClassMon Spec.Calm Conc.Pool Conc.Effect Conc.Immut Proofs.PoolLift Proofs.DebrisInTemp Seq.Plain Proofs.KvSeq Proofs.KvTemp Proofs.KvHist Spec.Wp Seq.Sane Proofs.TempSweep Proofs.KvShard Proofs.KvShardKey.
 (** A crash before the n-th call executes exactly the calls before it: the
     crashed run's trace is a prefix of the full run's trace. *)
 Theorem C02_crash_before_first_call : forall A (p : prog A) c k w o,
@@ -99,6 +101,32 @@ Theorem C02_histories_after_any_crash : forall cfg dir cap A (p : prog A) w o n 
   shist cfg dir ops os w' (al_of (plain_cdir dir cap) (w_fs w')) /\
   forall i D, data (w_fs w') i = Some D -> i < next_ino (w_fs w') -> data (w_fs (srun cfg ops os w')) i = Some D.
 Proof. intros cfg dir cap A p w o n ops os Hw Hr Hc Hb. exact (history_after_any_crash cfg dir cap Hw Hr Hc Hb p w o n ops os). Qed.
+
+(** Sharded caches: publication is atomic at every crash point as well - any entry
+    of any shard directory is bound to what it was, to nothing, or to the source's
+    inode, whatever shard was chosen, after any fault. *)
+Theorem C02_sharded_publication_is_atomic_at_every_crash_point : forall dir nsh total k v (which : bool) h nm j i0 w o n,
+  plainp dir = true -> valid_name (k_name k) = true -> plainp v = true ->
+  (forall q, v <> dir ++ q) -> (forall q, dir <> v ++ q) -> valid_name nm = true ->
+  names_plain (w_fs w) -> (name_of (w_fs w) v = Some i0 \/ name_of (w_fs w) v = None) ->
+  let y := (dir ++ [format_id j]) ++ [nm] in
+  let '(w', _, _, _) := run_crash (sh_publish (if which then cd_set else cd_put) h dir nsh total k v) w o n in
+  name_of (w_fs w') y = name_of (w_fs w) y \/ name_of (w_fs w') y = None \/ name_of (w_fs w') y = Some i0.
+Proof.
+  intros dir nsh total k v which h nm j i0 w o n Hd Hk Hv Hout Hnanc Hn Hpl Hs y.
+  assert (Hy : plainp y = true) by (apply (dst_plain (shard_cdir dir nsh total j) nm); [apply (dcd_plain dir nsh total Hd)|exact Hn]).
+  assert (Hyv : y <> v) by (intros E; unfold y in E; rewrite <- app_assoc in E; exact (Hout _ (eq_sym E))).
+  assert (Hyl : List.length dir + 1 < List.length y) by (unfold y; rewrite !app_length; cbn; Lia.lia).
+  exact (sharded_publication_is_atomic dir nsh total k v Hd Hk Hv Hout Hnanc y Hy Hyv Hyl i0 _ which h w o n Hpl Hs eq_refl).
+Qed.
+
+Theorem C02_stale_debris_is_reclaimed : forall temp w o, plainp temp = true ->
+  o_fault o = None -> names_plain (w_fs w) ->
+  let '(r, w', _, tr) := run (cleanup_temporary_directory temp) w o in
+  exists s', mon_run (lift (ws_step temp)) (Some (mkW None None None [])) tr = Some (Some s') /\
+    (forall p, In p (w_gone s') -> name_of (w_fs w') p = None) /\
+    match r with Ok _ => w_pend s' = None /\ (w_todo s' = Some [] \/ w_todo s' = None) | _ => True end.
+Proof. intros temp w o Ht. exact (stale_files_do_go temp Ht w o). Qed.
 
 (** Non-vacuity of the atomicity theorem: key "a" holds inode 2; set "a" <- "v"
     (inode 3) killed before each of its first 12 calls: the name is bound to the
